@@ -119,6 +119,13 @@ def check_C16(tier, seed):
                 # build-script helper
                 pref = prefixes[(i + di) % len(prefixes)]
                 dest = os.path.join(wd, "bs_%d_%d.rs" % (di, i))
+                # the destination may already exist in any state: absent, an empty placeholder, a cut-off header
+                pre = (i + di) % 4
+                if pre == 1:
+                    open(dest, "w").close()
+                elif pre == 2:
+                    with open(dest, "w") as fh:
+                        fh.write("// This file was generated by Peginator v0.7.0 built at 1\n")
                 order = list("opdfc")
                 random.Random("c16o/%s/%d/%d" % (seed, di, i)).shuffle(order)
                 p = subprocess.run([bs, "run", gp, dest, build.hexs(pref), dspec, "0", "vfrt::Ctx" if g.user_ctx else "-", "".join(order)], stdout=subprocess.PIPE, stderr=subprocess.PIPE, env=build.BASE_ENV, timeout=120)
